@@ -15,6 +15,8 @@ pub struct Out {
     pub nhits: u64,
     dir: String,
     suite: String,
+    pub skip: std::collections::HashSet<String>,
+    current: Option<File>,
 }
 
 impl Out {
@@ -31,7 +33,29 @@ impl Out {
             nhits: 0,
             dir: dir.to_owned(),
             suite: suite.to_owned(),
+            skip: load_skip(),
+            current: None,
         }
+    }
+
+    // Record the input about to be processed, so that an abort (stack exhaustion) of the
+    // implementation can be attributed to it by bin/check, which then re-runs with it skipped.
+    pub fn begin(&mut self, input: &str) -> bool {
+        let esc = input.replace('\\', "\\\\").replace('\n', "\\n");
+        if self.skip.contains(&esc) {
+            return false;
+        }
+        // one positioned write per case, no truncation: `<len>\n<input>` at offset 0
+        use std::io::{Seek, SeekFrom};
+        if self.current.is_none() {
+            self.current = File::create(format!("{}/{}.current", self.dir, self.suite)).ok();
+        }
+        if let Some(f) = self.current.as_mut() {
+            let payload = format!("{:010}\n{}", esc.len(), esc);
+            let _ = f.seek(SeekFrom::Start(0));
+            let _ = f.write_all(payload.as_bytes());
+        }
+        true
     }
 
     // One correspondence case: the op line and what the implementation answered.
@@ -63,6 +87,7 @@ impl Out {
         self.ops.flush().unwrap();
         self.imp.flush().unwrap();
         self.hits.flush().unwrap();
+        let _ = std::fs::remove_file(format!("{}/{}.current", self.dir, self.suite));
         let mut f = File::create(format!("{}/{}.stats", self.dir, self.suite)).unwrap();
         writeln!(f, "cases\t{}", self.cases).unwrap();
         writeln!(f, "hits\t{}", self.nhits).unwrap();
@@ -73,6 +98,16 @@ impl Out {
             writeln!(f, "sample\t{s}").unwrap();
         }
     }
+}
+
+fn load_skip() -> std::collections::HashSet<String> {
+    let mut set = std::collections::HashSet::new();
+    if let Ok(p) = std::env::var("VERIF_SKIP") {
+        if let Ok(txt) = std::fs::read_to_string(p) {
+            for l in txt.lines() { set.insert(l.to_owned()); }
+        }
+    }
+    set
 }
 
 // Run `f`, mapping a panic to `Err(message)`.
